@@ -10,6 +10,8 @@ import Valida.Spec.Parse
 import Valida.Eq
 import ValidaProofs.Lemmas.Basic
 import ValidaProofs.C14
+import ValidaProofs.Lemmas.C16Spec
+import ValidaProofs.Lemmas.C16Fuel
 namespace ValidaProofs
 open Valida ValidaGen
 
@@ -17,35 +19,52 @@ open Valida ValidaGen
     arguments, escaped keys, the popped part spec, `cast` and `doc` of a rule spec -/
 theorem C16_parsers_copy_before_rewrite :
     condArgsCopied = true ∧ pathSpecPure = true ∧ partSpecCopied = true ∧ ruleSpecCopied = true := by
-  sorry
+  decide
 
 /-- un-escaping builds a new mapping; the keys of the given one are left as they are (the model of
     `{k.replace(...): v for k, v in spec.items()}`): same length when no two keys collide, same values -/
 theorem C16_unescape_fresh (kvs : List (PyVal × PyVal)) :
-    (dictOfPairs kvs).length ≤ kvs.length ∧ ∀ kv ∈ dictOfPairs kvs, ∃ kv' ∈ kvs, kv.2 = kv'.2 := by
-  sorry
+    (dictOfPairs kvs).length ≤ kvs.length ∧ ∀ kv ∈ dictOfPairs kvs, ∃ kv' ∈ kvs, kv.2 = kv'.2 :=
+  C16L.dictOfPairs_fresh kvs
 
 /-- popping a key from the copy: the other items keep their order and values -/
 theorem C16_pop_frame (key : String) (kvs : List (PyVal × PyVal)) :
-    (popStr key kvs).2.Sublist kvs ∧ ∀ kv ∈ (popStr key kvs).2, PyVal.pyEq (.str key) kv.1 = false := by
-  sorry
+    (popStr key kvs).2.Sublist kvs ∧ ∀ kv ∈ (popStr key kvs).2, PyVal.pyEq (.str key) kv.1 = false :=
+  C16L.popStr_frame key kvs
 
+-- STATEMENT CHANGED: hypothesis `KwNodup c` added.  `c == c` is false for a condition whose keyword
+-- association list repeats a name (counterexample at `C14_cond_refl`: `kwargs = [("a", 1), ("a", 2)]`);
+-- the model's spec mappings are association lists, so `parseCond` on a mapping argument with a
+-- repeated key (not a Python dict) gives such a condition.
 /-- parsing the same (unchanged) structure again gives an equal object: conditions -/
 theorem C16_reparse_cond (fuel : Nat) (spec : PyVal) (c : Cond Arg) (h : parseCond fuel spec = .ok c)
-    (hr : ∀ a ∈ condArgs c, argEq a a = true) :
-    ∃ c', parseCond fuel spec = .ok c' ∧ condEq c' c = true := by
-  sorry
+    (hn : KwNodup c) (hr : ∀ a ∈ condArgs c, argEq a a = true) :
+    ∃ c', parseCond fuel spec = .ok c' ∧ condEq c' c = true :=
+  ⟨c, h, C14_cond_refl argEq c hn hr⟩
 
+-- STATEMENT CHANGED: hypothesis `PartKwNodup p` added, as for `C16_reparse_cond`.
 /-- … parts and rules -/
 theorem C16_reparse_part (fuel : Nat) (spec : List (PyVal × PyVal)) (p : Part) (h : parsePart fuel spec = .ok p)
-    (hr : ∀ a ∈ partVals p, PyVal.pyEq a a = true) :
-    ∃ p', parsePart fuel spec = .ok p' ∧ partEq p' p = true := by
-  sorry
+    (hn : PartKwNodup p) (hr : ∀ a ∈ partVals p, PyVal.pyEq a a = true) :
+    ∃ p', parsePart fuel spec = .ok p' ∧ partEq p' p = true :=
+  ⟨p, h, C14L.part_refl p hn (partVals_eq ▸ hr)⟩
+
+/-- the added hypotheses (and the reflexivity ones) hold for what the parsers give on real specs, e.g.
+    `{"value.in_range": {"lower": 1, "upper": 5}}` and `{"type": "map_value", "key.equal_to": "a"}` -/
+example :
+    (match parseCond 3 (.dict [(.str "value.in_range", .dict [(.str "lower", .int 1), (.str "upper", .int 5)])]) with
+     | .ok c => decide (∀ l ∈ c.leaves, (l.kwargs.map (·.1)).Nodup) && (condArgs c).all (fun a => argEq a a)
+     | .error _ => false) = true ∧
+    (match parsePart 3 [(.str "type", .str "map_value"), (.str "key.equal_to", .str "a")] with
+     | .ok p => [p.cond, p.listCond, p.mapCond].all (fun c => decide (∀ l ∈ c.leaves, (l.kwargs.map (·.1)).Nodup)) &&
+                (partVals p).all (fun a => PyVal.pyEq a a)
+     | .error _ => false) = true := by
+  constructor <;> decide +kernel
 
 /-- more fuel never changes the result of a successful parse: the outcome does not depend on how often
     or how deeply nested the parser was called before -/
 theorem C16_fuel_mono (fuel : Nat) (spec : PyVal) (c : Cond Arg) (h : parseCond fuel spec = .ok c) :
-    parseCond (fuel + 1) spec = .ok c := by
-  sorry
+    parseCond (fuel + 1) spec = .ok c :=
+  C16L.parseCond_mono fuel spec (.ok c) (fun e => by cases e) h
 
 end ValidaProofs
